@@ -38,6 +38,8 @@ pub fn num_of(j: &J) -> f64 {
                 f
             }
         }
+        // the quotient of two small integers, as the interpreter computes it
+        "rat" => j["s"].as_i64().unwrap() as f64 * (j["p"].as_i64().unwrap() as f64 / j["q"].as_i64().unwrap() as f64),
         "dec" => {
             let d = j["d"].as_str().unwrap();
             let f: f64 = d.parse().unwrap();
@@ -170,6 +172,15 @@ pub fn num_json(f: f64) -> J {
     }
 }
 
+/// the double an observed number record stands for (None when the record does not determine it)
+fn obs_f64(obs: &J) -> Option<f64> {
+    match obs["c"].as_str()? {
+        "inexact" => obs["text"].as_str()?.parse().ok(),
+        "fin" | "nzero" | "pinf" | "ninf" | "big" | "tiny" | "dec" => Some(num_of(obs)),
+        _ => None,
+    }
+}
+
 /// Does the observed value match the model's expectation?  Expectation classes "inexact" and "str1"
 /// constrain only the kind (a number / a one-character string).
 pub fn matches(exp: &J, obs: &J) -> bool {
@@ -183,6 +194,8 @@ pub fn matches(exp: &J, obs: &J) -> bool {
             }
             match exp["c"].as_str().unwrap() {
                 "inexact" => true,
+                // a quotient the model knows only by its neighbours: the observed double must be that quotient
+                "rat" => obs_f64(obs).map_or(false, |f| f == num_of(exp)),
                 "fin" => obs["c"] == "fin" && obs["n"] == exp["n"],
                 "big" | "tiny" | "dec" => obs["c"] == exp["c"] && obs["s"] == exp["s"] && obs["d"] == exp["d"],
                 c => obs["c"] == c,
